@@ -77,38 +77,59 @@ Definition mismatch_C12 (c : case_C12) : bool :=
 Definition sp_of_act (a : act) : option json :=
   match a with AInit sp | ADocSet sp _ _ | ADocRead sp => Some sp | _ => None end.
 
-Definition is_doc_act (fr : fl -> str) (i : str) (a : act) : bool :=
+(* the document file an action works on: a job document or the project document (next to the workspace) *)
+Definition pdoc_of (c : case_C12) : path := parent (q_ws c) ++ [PDOCF].
+
+Definition act_docfile (c : case_C12) (a : act) : option path :=
   match a with
-  | ADocSet sp _ _ | ADocRead sp => str_eqb (calc_id fr sp) i
-  | _ => false
+  | ADocSet sp _ _ | ADocRead sp => Some (q_ws c ++ [calc_id (frepr12 c) sp; DOCF])
+  | APDocSet _ _ | APDocRead => Some (pdoc_of c)
+  | _ => None
   end.
+
+Definition on_file (c : case_C12) (file : path) (a : act) : bool :=
+  match act_docfile c a with Some p => path_eqb p file | None => false end.
+
+Definition set_of_act (a : act) : option (str * json) :=
+  match a with ADocSet _ k v | APDocSet k v => Some (k, v) | _ => None end.
+
+Definition is_read_act (a : act) : bool := match a with ADocRead _ | APDocRead => true | _ => false end.
+
+Fixpoint nodup_paths (l : list path) : list path :=
+  match l with
+  | [] => []
+  | p :: l' => if existsb (path_eqb p) l' then nodup_paths l' else p :: nodup_paths l'
+  end.
+
+(* every document file some actor names *)
+Definition doc_files (c : case_C12) : list path :=
+  nodup_paths (flat_map (fun acts => flat_map (fun a => match act_docfile c a with Some p => [p] | None => [] end) acts)
+                        (q_actors c)).
 
 (* every id some actor names *)
 Definition requested (c : case_C12) : list str :=
   flat_map (fun acts => flat_map (fun a => match sp_of_act a with Some sp => [calc_id (frepr12 c) sp] | None => [] end) acts)
            (q_actors c).
 
-(* the document of job i in a tree ({} when there is no file) *)
-Definition doc_in (f : fs) (ws : path) (i : str) : option json :=
-  match get f (ws ++ [i; DOCF]) with
+(* the document in a tree ({} when there is no file) *)
+Definition doc_at (f : fs) (file : path) : option json :=
+  match get f file with
   | None => Some (JObj [])
   | Some (File d) => c_json d
   | Some Dir => None
   end.
 
-(* the complete versions of job i's document: the initial one and the one after each assignment, in the
+(* the complete versions of a document: the initial one and the one after each assignment, in the
    program order of the (single) writing actor *)
-Definition doc_versions (c : case_C12) (i : str) : list json :=
-  let d0 := match doc_in (q_pre c) (q_ws c) i with Some d => d | None => JNull end in
+Definition doc_versions (c : case_C12) (file : path) : list json :=
+  let d0 := match doc_at (q_pre c) file with Some d => d | None => JNull end in
   let sets := flat_map (fun acts => flat_map (fun a =>
-                match a with
-                | ADocSet sp k v => if str_eqb (calc_id (frepr12 c) sp) i then [(k, v)] else []
-                | _ => []
-                end) acts) (q_actors c) in
+                if on_file c file a then match set_of_act a with Some kv => [kv] | None => [] end else []) acts)
+                (q_actors c) in
   (fix go (d : json) (l : list (str * json)) : list json :=
      match l with [] => [d] | (k, v) :: l' => d :: go (doc_set d k v) l' end) d0 sets.
 
-(* positions (in the schedule) of actor a's opens-for-read of job i's document, in order *)
+(* positions (in the schedule) of actor a's opens-for-read of a document file, in order *)
 Fixpoint read_positions (a : nat) (file : path) (sched : list (nat * csig)) (pos : nat) : list nat :=
   match sched with
   | [] => []
@@ -117,47 +138,50 @@ Fixpoint read_positions (a : nat) (file : path) (sched : list (nat * csig)) (pos
       ++ read_positions a file rest (S pos)
   end.
 
-(* number of renames onto [file] among the first n positions *)
+(* number of COMPLETED installations of a new content of [file] among the first n positions: a rename onto
+   it, or (in-place protocol) the write of the bytes into the file itself.  Between the truncating open and
+   that write an in-place writer exposes a torn file: a read there fails and is counted by [no_failure]. *)
 Fixpoint renames_before (file : path) (sched : list (nat * csig)) (n : nat) : nat :=
   match n, sched with
   | S n', (_, s) :: rest =>
-      (if ckind_eqb (sg_kind s) SgRename && path_eqb (sg_q s) file then 1 else 0)%nat + renames_before file rest n'
+      (if (ckind_eqb (sg_kind s) SgRename && path_eqb (sg_q s) file)
+          || (ckind_eqb (sg_kind s) SgWrite && path_eqb (sg_p s) file) then 1 else 0)%nat + renames_before file rest n'
   | _, _ => O
   end.
 
 (* the ODoc observations of one actor, paired with the schedule position of the read that produced each:
-   the actor's doc actions on job i consume its reads of that file in order *)
-Fixpoint pair_reads (fr : fl -> str) (i : str) (acts : list act) (obs : list aobs) (reads : list nat)
+   the actor's actions on the document consume its reads of that file in order *)
+Fixpoint pair_reads (c : case_C12) (file : path) (acts : list act) (obs : list aobs) (reads : list nat)
   : list (nat * json) :=
   match acts, obs with
   | a :: acts', o :: obs' =>
-      if is_doc_act fr i a then
+      if on_file c file a then
         match reads with
         | [] => []
         | p :: reads' =>
-            match a, o with
-            | ADocRead _, ODoc v => (p, v) :: pair_reads fr i acts' obs' reads'
-            | _, _ => pair_reads fr i acts' obs' reads'
+            match is_read_act a, o with
+            | true, ODoc v => (p, v) :: pair_reads c file acts' obs' reads'
+            | _, _ => pair_reads c file acts' obs' reads'
             end
         end
-      else pair_reads fr i acts' obs' reads
+      else pair_reads c file acts' obs' reads
   | _, _ => []
   end.
 
+(* no torn document: every value read is a COMPLETE version, and exactly the one installed by the renames
+   completed before the read (read-after-write) *)
 Definition reads_ok_actor (c : case_C12) (a : nat) (acts : list act) (r : list aobs + exn) : bool :=
   match r with
   | inr _ => true                                  (* failures are counted by [no_failure] *)
   | inl obs =>
-      forallb (fun i =>
-        let file := q_ws c ++ [i; DOCF] in
-        let vs := doc_versions c i in
+      forallb (fun file =>
+        let vs := doc_versions c file in
         forallb (fun pv =>
-          (* read-after-write: exactly the version installed by the renames completed before the read *)
           match nth_error vs (renames_before file (q_sched c) (fst pv)) with
           | Some v => json_same v (snd pv)
           | None => false
-          end) (pair_reads (frepr12 c) i acts obs (read_positions a file (q_sched c) 0)))
-      (nodup str_eq_dec (requested c))
+          end) (pair_reads c file acts obs (read_positions a file (q_sched c) 0)))
+      (doc_files c)
   end.
 
 Fixpoint reads_ok (c : case_C12) (a : nat) (actors : list (list act)) (rs : list (list aobs + exn)) : bool :=
